@@ -3,7 +3,7 @@
 From V Require Import model.Base model.RingQueue proofs.RingQueueProofs.
 From V Require Import model.Obs model.Vec proofs.VecProofs.
 From V Require Import model.SlotMap proofs.SlotMapProofs.
-From V Require Import model.Str proofs.StrProofs model.FlatMap proofs.FlatMapProofs.
+From V Require Import model.Str proofs.StrProofs proofs.StrRefine model.FlatMap proofs.FlatMapProofs.
 From Coq Require Import Permutation.
 
 (* queue.rs: for every capacity (0 included) and every operation sequence the ring buffer
@@ -160,7 +160,109 @@ Print Assumptions c16_slotmap_drop_once_nonvacuous.
 
 (* ------------------------------------------------------------------------------------------
    string/mod.rs (trait String; StaticString, PolymorphicString, RelocatableString). *)
-(*STR-SECTION*)
+
+(* The clause as the property states it (reference: retain keeps the bytes for which the predicate
+   holds) is false of the faithful model: known finding string:retain-inverted, pinned by the
+   repository's own retain_works test. *)
+Definition c16_str_refines_full : Prop := str_refines_full.
+Theorem c16_str_refines_refuted : ~ c16_str_refines_full.
+Proof. exact str_refines_refuted. Qed.
+Print Assumptions c16_str_refines_refuted.
+Theorem c16_str_retain_witness :
+  str_run (str_new FPoly 1) [SPush 97; SRetain [97%N]; SBytes] = [OUnit; OUnit; OL []] /\
+  sstr_run false (sstr_new FPoly 1) [SPush 97; SRetain [97%N]; SBytes] = [OUnit; OUnit; OL [97%N]].
+Proof. exact str_retain_witness. Qed.
+Print Assumptions c16_str_retain_witness.
+
+(* Strongest true statement (partial): for every capacity, all three storage flavours (inline:
+   positive capacity -- StaticString::<0>::new() panics and cannot be constructed) and every
+   operation sequence over push / push_bytes / insert / insert_bytes / pop / remove /
+   remove_range / retain / find / rfind / strip_prefix / strip_suffix / truncate / clear /
+   as_bytes / the terminator byte / len, the (len, capacity, buffer) model with its memmove
+   shifts, bounds-checked cell accesses and guarded terminator writes returns exactly what the
+   byte-list reference returns -- including the documented errors, the panic of an insert beyond
+   the end and the terminator byte 0 -- once the reference's retain removes instead of keeps. *)
+Theorem c16_str_refines_bytes_partial : forall fl c ops, (fl = FStatic -> (0 < c)%N) ->
+  str_run (str_new fl c) ops = sstr_run true (sstr_new fl c) ops.
+Proof. exact str_refines_bytes. Qed.
+Check c16_str_refines_bytes_partial : forall fl c ops, (fl = FStatic -> (0 < c)%N) ->
+  str_run (str_new fl c) ops = sstr_run true (sstr_new fl c) ops.
+Print Assumptions c16_str_refines_bytes_partial.
+Example c16_str_refines_bytes_partial_nonvacuous :
+  (FStatic = FStatic -> (0 < 3)%N) /\ (FPoly = FStatic -> (0 < 0)%N) /\ (FReloc = FStatic -> (0 < 0)%N).
+Proof. repeat split; try reflexivity; discriminate. Qed.
+Print Assumptions c16_str_refines_bytes_partial_nonvacuous.
+
+(* ... and that reference IS the reference of the property on every call other than retain. *)
+Theorem c16_str_dev_agree : forall s o, (forall l, o <> SRetain l) -> sstr_step true s o = sstr_step false s o.
+Proof. exact sstr_dev_agree. Qed.
+Print Assumptions c16_str_dev_agree.
+Example c16_str_dev_agree_nonvacuous : forall l, SFind [97%N] <> SRetain l.
+Proof. discriminate. Qed.
+Print Assumptions c16_str_dev_agree_nonvacuous.
+
+(* NUL-terminator invariant: in every reachable state data[len] = 0 (heap-backed and relocatable
+   strings filled to capacity included; for the inline flavour the cell behind the array is the
+   terminator field), len <= capacity, and the first len cells are the reference's content. *)
+Theorem c16_str_terminator : forall fl c m s, (fl = FStatic -> (0 < c)%N) -> sreach fl c m s ->
+  nthN (sbuf m) (slen m) 0%N = 0%N /\ (slen m <= scap m)%N /\ lenN (sbuf m) = (scap m + 1)%N /\
+  firstn (N.to_nat (slen m)) (sbuf m) = sbytes s.
+Proof. exact str_terminator. Qed.
+Print Assumptions c16_str_terminator.
+Example c16_str_terminator_nonvacuous :
+  sreach FPoly 1 (fst (str_step (str_new FPoly 1) (SPush 97))) (fst (sstr_step true (sstr_new FPoly 1) (SPush 97))).
+Proof. apply sreachS, sreach0. Qed.
+Print Assumptions c16_str_terminator_nonvacuous.
+
+(* a call failing with InsertWouldExceedCapacity / InvalidCharacter leaves the whole record (len,
+   capacity, buffer) unchanged, for every state and every operation; likewise the reference *)
+Theorem c16_str_error_unchanged : forall s o s' e, str_step s o = (s', OErr e) -> s' = s.
+Proof. exact str_error_unchanged. Qed.
+Print Assumptions c16_str_error_unchanged.
+Example c16_str_error_unchanged_nonvacuous :
+  str_step (str_new FPoly 1) (SPush 0) = (str_new FPoly 1, OErr EInvalidCharacter) /\
+  str_step (str_new FPoly 0) (SPush 97) = (str_new FPoly 0, OErr EExceedsCapacity).
+Proof. split; reflexivity. Qed.
+Print Assumptions c16_str_error_unchanged_nonvacuous.
+Theorem c16_str_reference_error_unchanged : forall dev s o s' e, sstr_step dev s o = (s', OErr e) -> s' = s.
+Proof. exact sstr_error_unchanged. Qed.
+Print Assumptions c16_str_reference_error_unchanged.
+Example c16_str_reference_error_unchanged_nonvacuous :
+  sstr_step false (sstr_new FPoly 0) (SPush 97) = (sstr_new FPoly 0, OErr EExceedsCapacity).
+Proof. reflexivity. Qed.
+Print Assumptions c16_str_reference_error_unchanged_nonvacuous.
+
+(* byte rule: whenever insert_bytes accepts, the index was inside, the result fits and every byte
+   is in 1..127; on the reference acceptance is equivalent to that, for all byte values *)
+Theorem c16_str_bytes_accept_sound : forall s idx l s',
+  str_insert_bytes s idx l = Val (s', OUnit) ->
+  (idx <= slen s)%N /\ (slen s + lenN l <= scap s)%N /\ Forall (fun b => (1 <= b <= 127)%N) l /\ slen s' = (slen s + lenN l)%N.
+Proof. exact str_insert_accept_sound. Qed.
+Print Assumptions c16_str_bytes_accept_sound.
+Example c16_str_bytes_accept_sound_nonvacuous :
+  exists s', str_insert_bytes (str_new FStatic 3) 0 [97%N; 98%N] = Val (s', OUnit).
+Proof. eexists. reflexivity. Qed.
+Print Assumptions c16_str_bytes_accept_sound_nonvacuous.
+Theorem c16_str_bytes_reference : forall s i l,
+  snd (sins s i l) = OUnit <->
+  (i <= lenN (sbytes s))%N /\ (lenN (sbytes s) + lenN l <= sscap s)%N /\ Forall (fun b => (1 <= b <= 127)%N) l.
+Proof. exact sins_accept_iff. Qed.
+Print Assumptions c16_str_bytes_reference.
+
+(* regression histories of the former deviations (zero-length removal on a full StaticString;
+   missing terminator), fixed in /repo by 8cf1846 / b417f55 *)
+Theorem c16_str_regression_zero_len :
+  str_run (str_new FStatic 1) [SPush 97; SStripPrefix []; SStripSuffix []; SRemoveRange 1 0; SBytes] =
+  [OUnit; OB true; OB true; OB true; OL [97%N]].
+Proof. exact str_regression_zero_len. Qed.
+Print Assumptions c16_str_regression_zero_len.
+Theorem c16_str_regression_nul :
+  str_run (str_new FReloc 1) [SNul] = [ON 0%N] /\
+  str_run (str_new FPoly 1) [SPush 97; SNul] = [OUnit; ON 0%N] /\
+  str_run (str_new FReloc 1) [SPush 97; SNul] = [OUnit; ON 0%N].
+Proof. exact str_regression_nul. Qed.
+Print Assumptions c16_str_regression_nul.
+
 
 (* ------------------------------------------------------------------------------------------
    flatmap.rs (MetaFlatMap over the slot map). *)
